@@ -223,6 +223,6 @@ def strat_idem(tier):
 
 
 PARTS = [
-    Part("xproc", run_xproc, strat_xproc, {"quick": 480, "thorough": 8000}, rule=RULE),
-    Part("idempotent", run_idem, strat_idem, {"quick": 640, "thorough": 12000}, rule="every poll point: three consecutive get_next_tasks() agree and the later ones leave serialize() unchanged"),
+    Part("xproc", run_xproc, strat_xproc, {"quick": 480, "thorough": 4800}, rule=RULE),
+    Part("idempotent", run_idem, strat_idem, {"quick": 640, "thorough": 6400}, rule="every poll point: three consecutive get_next_tasks() agree and the later ones leave serialize() unchanged"),
 ]
